@@ -553,6 +553,7 @@ class CallMixin:
                 ct = self.truth(self.eval(c), c)
                 conds.append(ct)
                 self.ctx.pc.append(ct)
+                self.narrow(c, True)  # `[u for u in L if u is not None]`: u is the inner value in the element expression
             val = self.eval(elt)
         finally:
             extra = self.ctx.pc[pc_len:]
@@ -1118,6 +1119,11 @@ class CallMixin:
     def spec_local(self, node):
         """local('n'): value of the function's local variable n at the exit being checked."""
         name = ast.literal_eval(node.args[0])
+        exposed = getattr(self, "_callee_exposed", None)
+        if exposed is not None:
+            if name in exposed:
+                return exposed[name]
+            raise Unsupported(f"callee contract refers to its local {name!r}: declare it in ghost.exposed_locals", node)
         fl = getattr(self, "final_locals", None) or {}
         if name not in fl:
             if len(node.args) > 1:
